@@ -43,6 +43,8 @@ def space(tier, seed):
         qs.append(('base', {'items': [a1, a2], 'where': None, 'group': [F('a', 1)]}))
         if tier == 'thorough':
             qs.append(('base', {'items': [F('a', 1), a1, ('lit', 'c'), a2], 'where': wheres[1], 'group': [F('a', 1)]}))
+    qs.append(('base', {'items': [A('MIN', 'U', F('a', 3)), F('a', 1), A('MAX', 'l', F('a', 3)), A('COUNT', 'U', ('star', None)), A('SUM', 'U', F('a', 3)), A('ARRAY_AGG', 'U', F('a', 3)), A('AVG', 'C', F('a', 3))],
+               'where': None, 'group': [F('a', 1)]}))
     for arg in (('star', None), ('int', 1), F('a', 1)):
         for grp in (None, [F('a', 1)]):
             qs.append(('base', {'items': [A('COUNT', spell[len(qs) % 3], arg)], 'where': None, 'group': grp}))
